@@ -11,8 +11,8 @@ RULE = (
     "root and/or at top-level directories, each with its own or a shared cache and its own or a shared remote (remote-like "
     "stores, optionally with a remote index), plus cache-only prefixes deeper down for the per-role fallback (checked on "
     "storage_map[key] against an independent longest-prefix resolver).  push(collect(idx, 'remote', push=True)) with a first round "
-    "in which a subset of uploads fails (every subset when <= 5 objects, sampled otherwise) and a clean retry; fetch(collect(idx2, "
-    "'remote')) into empty caches; checkout from the fetched caches.  Reachable set and designation are computed independently "
+    "in which a subset of uploads fails (every subset when <= 5 objects, sampled otherwise) and a clean retry; with a remote index, a round in which the remotes lose a closed set of objects (or everything) the index still lists, then a clean push; fetch(collect(idx2, "
+    "'remote')) into empty caches (remotes optionally registered read-only for the fetch); checkout from the fetched caches.  Reachable set and designation are computed independently "
     "from the generated data.  non-trivial = >= 2 storage prefixes or a failing subset; distinct = (tree, placement, subset)"
 )
 ASSUMPTIONS = [
@@ -22,7 +22,7 @@ ASSUMPTIONS = [
     "remotes emulated by a non-local FileSystem over local disk",
 ]
 MONITORS = "os.walk listings of every remote/cache before and after vs independently computed reachable/designated sets; pushed/failed counts vs objects that newly appeared; workspace walk after checkout"
-REQUIRED_COUNTERS = ["collect_given_a_view", "layout/tops-only", "layout/root+deep", "layout/root+tops", "lazy_index_cases", "pushes", "fetches", "failure_rounds", "retries", "checkouts_from_fetched_cache", "multi_prefix_cases", "role_fallback_checks",
+REQUIRED_COUNTERS = ["remote_loss_rounds", "remote_objects_lost", "fetches_from_read_only_remotes", "collect_given_a_view", "layout/tops-only", "layout/root+deep", "layout/root+tops", "lazy_index_cases", "pushes", "fetches", "failure_rounds", "retries", "checkouts_from_fetched_cache", "multi_prefix_cases", "role_fallback_checks",
                      "objects_designation_checked", "shared_cache_cases", "exhaustive_subset_cases", "remote_index_cases"]
 
 
@@ -114,12 +114,14 @@ def run_shard(ctx):
             if use_rindex:
                 res.count("remote_index_cases")
 
-            def attach(idx, cache_objs):
+            ro_fetch = rng.random() < 0.3  # the remotes are registered read-only for the fetch (public mirror): still good sources
+
+            def attach(idx, cache_objs, read_only_remotes=False):
                 for p, roles in pmap.items():
                     idx.storage_map.add_cache(ObjectStorage(key=p, odb=cache_objs[roles["cache"]]))
-                    idx.storage_map.add_remote(ObjectStorage(key=p, odb=remotes[roles["remote"]]))
+                    idx.storage_map.add_remote(ObjectStorage(key=p, odb=remotes[roles["remote"]], **({"read_only": True} if read_only_remotes else {})))
 
-            def lazify(full, cache_objs):
+            def lazify(full, cache_objs, read_only_remotes=False):
                 """the index a .dvc file describes: top-level directories as single unloaded entries pointing at their objects"""
                 from dvc_data.index import DataIndex as _DI
                 from dvc_data.index import DataIndexEntry as _DE
@@ -131,7 +133,7 @@ def run_shard(ctx):
                         out[k] = _DE(key=k, meta=_M(isdir=True), hash_info=e.hash_info)
                     elif len(k) == 1 and not (e.meta and e.meta.isdir):
                         out[k] = _DE(key=k, meta=e.meta, hash_info=e.hash_info)
-                attach(out, cache_objs)
+                attach(out, cache_objs, read_only_remotes)
                 return out
 
             def handed(i):
@@ -286,6 +288,51 @@ def run_shard(ctx):
                         if H("md5", b) != base:
                             res.violation("remote-object-wrong-bytes", f"{oid} in remote {n} does not match its name", case=case, detail=info)
 
+            # ---- the remote loses objects that the local remote index still lists (remote-side clean-up, bucket re-created), then a clean push
+            if use_rindex and not split_remote:
+                from ..oracle import parse_dir_bytes
+
+                res.evaluated()
+                res.count("remote_loss_rounds")
+                lost_total = 0
+                for n, o in remotes.items():
+                    robjs = list_store(o.path)[0]
+                    listings = {}
+                    for oid, pth in robjs.items():
+                        if oid.endswith(DIR_SUFFIX):
+                            with open(pth, "rb") as f:
+                                listings[oid] = set(parse_dir_bytes(f.read())[0].values())
+                    if rng.random() < 0.4 or not listings:
+                        lose = set(robjs)  # everything
+                    else:
+                        D = set(rng.sample(sorted(listings), rng.randrange(1, len(listings) + 1)))
+                        while True:  # closed: no directory object is left behind without one of its files
+                            F = set().union(*(listings[x] for x in D)) if D else set()
+                            D2 = D | {x for x, l in listings.items() if l & F}
+                            if D2 == D:
+                                break
+                            D = D2
+                        lose = D | F
+                    for oid in lose:
+                        if oid in robjs:
+                            os.unlink(robjs[oid])
+                            lost_total += 1
+                res.count("remote_objects_lost", lost_total)
+                pushed3, failed3 = push(collect([handed(lazify(idx, caches) if lazy else idx)], "remote", push=True))
+                after3 = remote_state()
+                res.nontrivial("remote-loss", sorted(covered.items()), sorted((p, tuple(sorted(r.items()))) for p, r in pmap.items()), lost_total)
+                done = False
+                for oid, names in reach.items():
+                    for n in names:
+                        if n is not None and oid not in after3[n]:
+                            res.violation("reachable-object-missing-from-designated-remote/after-remote-lost-indexed-objects",
+                                          f"{oid} is designated for remote {n}; the remote had lost objects its index still listed and a clean push did not restore it "
+                                          f"(pushed={pushed3} failed={failed3})", case=case, detail=cfg)
+                            done = True
+                            break
+                    if done:
+                        break
+
             # ---- fetch into empty caches, then checkout from them
             if split_remote:
                 res.count("fetch_skipped_checks_split_remote")
@@ -302,9 +349,11 @@ def run_shard(ctx):
                 if e.meta and e.meta.isdir and e.hash_info and k in idx2:
                     idx2[k].hash_info = e.hash_info
             idx2.storage_map = type(idx2.storage_map)()
-            attach(idx2, fresh)
+            attach(idx2, fresh, read_only_remotes=ro_fetch)
+            if ro_fetch:
+                res.count("fetches_from_read_only_remotes")
             if lazy:
-                idx2 = lazify(idx2, fresh)
+                idx2 = lazify(idx2, fresh, read_only_remotes=ro_fetch)
             fetched, ffailed = fetch(collect([handed(idx2)], "remote"))
             cstate = {n: store_snapshot(o.path) for n, o in fresh.items()}
             if ffailed:
